@@ -7,10 +7,12 @@
 (***************************************************************************)
 EXTENDS MSMImpl, TLC
 CONSTANTS MaxN, Tasks
-VARIABLE n
-Init == n = 0
-Next == n < MaxN /\ n' = n + 1
-Spec == Init /\ [][Next]_n
+VARIABLES nh, nl
+n == 64 * nh + nl
+Init == nh = 0 /\ nl = 0
+Next == \/ nl < 63 /\ 64 * nh + nl + 1 <= MaxN /\ nl' = nl + 1 /\ nh' = nh
+        \/ 64 * (nh + 1) + nl <= MaxN /\ nh' = nh + 1 /\ nl' = nl
+Spec == Init /\ [][Next]_<<nh, nl>>
 ChooserOK ==
   \A t \in Tasks :
     LET r == SplitLoop(256, t, 1, n)
